@@ -8,6 +8,6 @@ Definition keepZ : Z := Z.add 0 0.
 Extraction "model_c04.ml" keepN keepZ
   decode_fixed fixed_new fixed_new_from_body run_ops apply_op step encode_fixed encode_wits encode_wits_old entries
   decode_fixed_body decode_fixed_bodies decode_fixed_block decode_versioned_block era_of judge_block judge_bodies array_slices decode_pd encode_pd decode_plist reencode_plist
-  tx_covered body_covered aux_covered wits_covered decode_wits judge judge_datum same_reading spec_slices map_slices item_wf skip_item parse_one parse_exact encode_item key_order
+  tx_covered body_canonical add_vkey add_boot body_covered aux_covered wits_covered decode_wits judge judge_datum same_reading spec_slices map_slices item_wf skip_item parse_one parse_exact encode_item key_order
   enc dec wfv writer_form refined reward_sort_key is_empty_val
   TransactionBody TransactionWitnessSet AuxiliaryData PlutusData PlutusList Transaction Header HeaderPraos Block BlockPraos.
